@@ -61,10 +61,11 @@ func c03Poll(c *vf.Case, w *sim.World) {
 
 func c03Script(c *vf.Case, w *sim.World) {
 	r := c.Rng
-	kinds := []sim.Kind{sim.KConnDialed, sim.KConnAccepted, sim.KFifoR, sim.KFifoW, sim.KUDP, sim.KListener}
+	kinds := []sim.Kind{sim.KConnDialed, sim.KConnAccepted, sim.KAdapter, sim.KFifoR, sim.KFifoW, sim.KUDP, sim.KListener}
 	for i := 0; i < r.Range(2, 5); i++ {
 		k := kinds[r.Intn(len(kinds))]
-		if _, err := w.NewObj(k, r.Bool()); err != nil {
+		// an adapter's write parks in the Go netpoller instead of returning would-block: no shrunken buffers for it
+		if _, err := w.NewObj(k, r.Bool() && k != sim.KAdapter); err != nil {
 			c.Failf("harness-setup", "cannot create %v: %v", k, err)
 			return
 		}
@@ -204,6 +205,19 @@ func c03Script(c *vf.Case, w *sim.World) {
 			if o := pickOpen(func(o *sim.Obj) bool {
 				return (o.Kind == sim.KConnDialed || o.Kind == sim.KConnAccepted) && o.Rd == nil && o.Wr == nil
 			}); o != nil {
+				if r.Bool() {
+					// both directions registered first, then the descriptor goes away underneath and the object is
+					// closed: every epoll_ctl of the teardown fails, nothing may stay counted
+					w.StartStream(o, 0, false, 64, sim.BNone, nil, true)
+					w.StartStream(o, 1, false, 64, sim.BNone, nil, true)
+					c03Compare(c, w, "start")
+					c.Logf("  %s: read and write registered, descriptor closed underneath, then Close", o)
+					_ = syscall.Close(o.Raw)
+					w.Close(o)
+					c.Count("closes_after_descriptor_closed_underneath_with_both_directions", 1)
+					c03Compare(c, w, "Close-after-descriptor-closed-underneath")
+					break
+				}
 				c.Logf("  %s: descriptor closed underneath, then a forced start", o)
 				_ = syscall.Close(o.Raw)
 				op := w.StartStream(o, r.Intn(2), false, 64, sim.BNone, nil, true)
